@@ -52,9 +52,12 @@ func coqEval(theories, prop, body string) string {
 }
 
 func labelsCoq(ls []label) string {
-	parts := make([]string, len(ls))
-	for i, l := range ls {
-		parts[i] = l.coq()
+	var parts []string
+	for _, l := range ls {
+		parts = append(parts, l.coq())
+		if l.K == "recv" && l.MidCancel {
+			parts = append(parts, label{K: "cancel", Tid: l.Tid}.coq())
+		}
 	}
 	return "[" + strings.Join(parts, "; ") + "]"
 }
